@@ -4,6 +4,19 @@ From Coquelicot Require Import Coquelicot.
 From OAS Require Import Scalar Rops Sums Deriv Dual DualProofs Drag DragDeriv Stress StressDeriv StressProofs Transfer TransferDeriv Loads LoadsDeriv Functionals FunctionalsDeriv Aero AeroDeriv PG PGDeriv Beam BeamTables BeamDeriv Geom GeomDeriv Misc MiscDeriv MultiSec MultiSecDeriv.
 Open Scope R_scope.
 
+Theorem C01_Stretch :
+  forall (npx npy : nat) (M : R -> nat -> nat -> nat -> R) (Rap : R -> R) (t0 : R)
+    (m : nat -> nat -> nat -> dual R) (rap : dual R),
+  DR3 M t0 m ->
+  DR Rap t0 rap ->
+  forall (sym : bool) (Sp : R -> R) (sp : dual R) (i j d : nat),
+  DR Sp t0 sp ->
+  ref_axis npx (Rap t0) (M t0) npy 1 - ref_axis npx (Rap t0) (M t0) 0 1 <> 0 ->
+  DR (fun t : R => stretch_mesh npx npy sym (Rap t) (Sp t) (M t) i j d) t0
+    (stretch_mesh npx npy sym rap sp m i j d).
+Proof. exact stretch_mesh_DR. Qed.
+Print Assumptions C01_Stretch.
+
 Theorem C01_Rotate :
   forall (npx npy : nat) (M : R -> nat -> nat -> nat -> R) (Rap : R -> R) (t0 : R)
     (m : nat -> nat -> nat -> dual R) (rap : dual R),
